@@ -31,7 +31,17 @@ def real_stream(fedjax, n, bs, epochs, steps, drop, skip, seed, variant, chain, 
   hp = fedjax.ShuffleRepeatBatchHParams(batch_size=bs, num_epochs=None if epochs == NONE else epochs,
                                         num_steps=None if steps == NONE else steps, drop_remainder=drop, seed=seed_obj,
                                         skip_shuffle=skip)
-  view = ds.shuffle_repeat_batch(hp)
+  # call styles: the hyper-parameter object alone, keywords alone, or ANOTHER object overridden by keywords (None included)
+  style = (n + 3 * bs + (0 if seed is None else seed)) % 3
+  kw_all = dict(batch_size=bs, num_epochs=None if epochs == NONE else epochs, num_steps=None if steps == NONE else steps, drop_remainder=drop, seed=seed_obj,
+                skip_shuffle=skip)
+  if style == 0:
+    view = ds.shuffle_repeat_batch(hp)
+  elif style == 1:
+    view = ds.shuffle_repeat_batch(**kw_all)
+  else:
+    other = fedjax.ShuffleRepeatBatchHParams(batch_size=bs + 1, num_epochs=3, num_steps=2, drop_remainder=not drop, seed=12345, skip_shuffle=not skip)
+    view = ds.shuffle_repeat_batch(other, **kw_all)
 
   def pull(it):
     out = []
